@@ -290,8 +290,8 @@ pub fn gen(rng: &mut Prng, plan: &mut Plan) {
         }
     }
     let fail_at: i128 = if rng.chance(1, 12) { rng.below(6) as i128 } else { -1 };
-    // a long stuck-at-ones fault in front of everything: tens of thousands of rejected candidates, then healing
-    let stuck: i128 = if rng.chance(1, 150) { *rng.pick(&[4i128 * 70_000, 4 * 140_001, 4 * 300_000]) } else if rng.chance(1, 30) { 4 * rng.range(1, 3000) as i128 } else { 0 };
+    // a long stuck-at-ones fault in front of everything: tens of thousands up to more than 2^20 rejected candidates, then healing
+    let stuck: i128 = if rng.chance(1, 150) { *rng.pick(&[4i128 * 70_000, 4 * 140_001, 4 * 300_000, 4 * 1_100_000, 8 * 1_100_000 + 4]) } else if rng.chance(1, 30) { 4 * rng.range(1, 3000) as i128 } else { 0 };
     plan.cfg = Step::new("cfg").i("fail_at", fail_at).i("stuck", stuck).l32("words", &words);
     plan.steps = steps;
 }
@@ -320,7 +320,7 @@ fn model_below(r: &SimRng, mut pos: usize, b: &RefNat) -> (RefNat, usize, u64) {
             return (c, pos, retries);
         }
         retries += 1;
-        assert!(retries < 1_000_000, "model: stream never heals");
+        assert!(retries < 40_000_000, "model: stream never heals");
     }
 }
 
